@@ -126,6 +126,9 @@ def chain_direction_uniform(files):
 
 
 def oracle_runs(case, obs):
+    v = fsrun.refused_valid_name(case, obs)
+    if v:
+        return v
     if case["strategy"] != "stop":
         return None
     files = analyse(case, obs)
